@@ -43,6 +43,9 @@ PROPS = {
     not_covered=["number of invocations of an opaque handler with identical arguments (A4)"]),
  'C08': dict(units=['lb', 'ev', 'hv'], assumptions=[A1, A4, A5, A6, A8],
     level_text="Unbounded proof: get_precidence returns (2p, 2p+-1) of the registered entry, lemma_bp_gate shows gate and loop test agree with the registered order for all precedences 0 < p <= 10^9 incl. adjacent ones; register_* and parse_expression establish init() before touching a registry; exec_function dispatches context function, then global, else Err; get_handler/get_op_type return the registered fields.",
+    always_bounded=dict(function='register / evaluate histories through the real registries, tokenizer and parser (the "every later evaluation" clause over a history of registrations)', categories=['script'],
+        why="per-call contracts speak about one evaluation against a registry view; that a later call sees the last registration (A5), and that the tokenizer classifies a registered or bound name as that name, are outside these units' contracts",
+        bound="the registration scripts of vx/corpus.py (about 330 steps: override before/after first use, re-registration with other precedence/associativity, shadowing, long / multi-byte / symbolic operator names, names that differ from keywords only in case, create_context! contexts)"),
     level_note="'most recently registered' over a history relies on HashMap::insert replacing (A5); interleavings are not quantified.",
     not_covered=["histories of registrations (A5)", "interleavings"]),
  'C09': dict(units=['tp', 'hv', 'ev'], assumptions=[A1, A2, A3, A6],
